@@ -371,7 +371,8 @@ impl Node {
       "trailing" => {
         let mut all = [head.clone(), tail.clone()].concat();
         if tail.is_empty() {
-          all.extend([0, 1, 1, 1]);
+          // body tag followed by a single integer: an incomplete edict
+          all.push(0);
         } else {
           all.extend([0, 0]);
         }
